@@ -143,24 +143,29 @@ def routing(confdir):
     finders = []
     getters = []
     types = list(conf.sid_templates.keys()) + ['']
-    for t in types:
+    def dummy(t):
         x = Sid(from_factory=True)
         x._init(string='x', type=t, fields={'k': 'v'})
+        return x
+    # finders first (instance identity matters: FindInAll groups typed searches by Finder instance), in one module state
+    for t in types:
+        x = dummy(t)
         f1 = conf.get_finder_for(x, None)
         f2 = conf.get_finder_for(x, None)
         d = describe_finder(f1, ids)
         if f1 is not f2:
             d = ['unsupported', 'new finder instance on every call']
         finders.append([t, d])
-        import importlib
-        dm = importlib.reload(sys.modules['spil_data_conf'])       # fresh module state for every probe
+    # getters: every probe from a fresh module state, and again after other calls: routing must not depend on history
+    import importlib
+    for t in types:
+        x = dummy(t)
+        dm = importlib.reload(sys.modules['spil_data_conf'])
         g1 = describe_getter(dm.get_getter_for(x))
         g2 = describe_getter(dm.get_getter_for(x))
         g3 = describe_getter(dm.get_getter_for(x, attribute='next.version'))
         for other in types[:3]:
-            y = Sid(from_factory=True)
-            y._init(string='x', type=other, fields={'k': 'v'})
-            dm.get_getter_for(y)
+            dm.get_getter_for(dummy(other))
         g4 = describe_getter(dm.get_getter_for(x))
         if g2 != g1 or g4 != g1:
             g1 = ['unsupported: get_getter_for depends on earlier calls (%r then %r / %r)' % (g1, g2, g4)]
